@@ -28,11 +28,10 @@ For toc, and for the extensions that add an inline pattern, the statements are w
     toc           `C16_noninterference_toc_tree`: the trigger is stated on the element tree of the run WITHOUT toc
                   (`treeX`, the tree handed to the serializer): no `h1`–`h6` and no childless element whose stripped
                   text is `[TOC]`, and the tree stage does not raise (`tocTriggerFree`)
-    wikilinks     `C16_noninterference_wikilinks_tree_partial`: the exact trigger `[[`, stated on the element tree the
-                  inline stage is run on (`blockTreeX`): no text or tail contains `[[` (`wikiTriggerFree`), and the
-                  run without the extension is not out of fuel;
-                  `C16_noninterference_wikilinks_partial`: stated on the source, but with the stronger trigger "no
-                  `[` at all", and the run without the extension is not out of fuel
+    wikilinks     `C16_noninterference_wikilinks_partial`: no `[[` in the source (the exact trigger), and the run
+                  without the extension is not out of fuel;
+                  `C16_noninterference_wikilinks_tree_partial`: the same with the trigger stated on the element tree
+                  the inline stage is run on (`blockTreeX`): no text or tail contains `[[` (`wikiTriggerFree`)
     nl2br         `C16_noninterference_nl2br_tree_partial`: the trigger is stated on the element tree the inline stage
                   is run on (`blockTreeX`): no line feed in any text or tail (so: one-line paragraphs, no code
                   block), and the run without the extension is not out of fuel
@@ -61,8 +60,11 @@ tables and attr_list also need the inline stage: a character that neither the bl
 stage introduce and that is not in the text occurs in no text / tail of the tree, of the stash and of any string
 a pattern is run on (`Lemmas/PipelineXInertTree*.lean`, `Lemmas/InlineXInv.lean`, `Lemmas/InlineXRel.lean`); so
 the escape pattern never meets `\|`, and `AttrListTreeprocessor` finds no `{`.
-wikilinks, nl2br: `Lemmas/InlineXSim.lean` — a run whose pattern table has one more entry that never matches follows
-the run without it (one more step, with `startIndex = 0`, in every `while patternIndex < count` loop).
+wikilinks, nl2br, footnotes: `Lemmas/InlineXSim.lean`, `Lemmas/InlineXSimP.lean` — a run whose pattern table has one
+more entry that never matches follows the run without it (one more step, with `startIndex = 0`, in every
+`while patternIndex < count` loop).  For wikilinks the invariant "no `[[`" is carried through the block stage
+(`Lemmas/PipelineXInertTreeP*.lean`) and the inline stage (`Lemmas/InlineXInvP*.lean`) as a `Sep` predicate: closed
+under infixes, and under gluing with a non-empty string without `[` in between.
 toc: `TocTreeprocessor.run` is the identity on a tree without headings and markers (`TocTree.run_id`), and
 `UnescapeTreeprocessor` neither removes a heading nor a marker (`TocTree.tocFree_unescape`).
 -/
@@ -71,7 +73,7 @@ import MdVerif.Lemmas.PipelineXInertAttr3
 import MdVerif.Lemmas.PipelineXInertSim
 import MdVerif.Lemmas.PipelineXInertToc
 import MdVerif.Lemmas.PipelineXInertFnDiv
-import MdVerif.Lemmas.PipelineXInertWiki
+import MdVerif.Lemmas.PipelineXInertWiki2
 
 namespace MdVerif.PipelineX
 open Py Pipeline BlockExt
@@ -189,22 +191,23 @@ example : convertX { toc := true } {} "[TOC]".toList ≠ convertX {} {} "[TOC]".
 
 /-! ### wikilinks -/
 
-/-- **wikilinks**, partial: inert on a source without `[` (the trigger of the extension is `[[`; the proof uses the
-    invariant "no `[` in any text", which the inline stage keeps), when the run without it is not out of fuel. -/
-theorem C16_noninterference_wikilinks_partial (x : Exts) (cfg : Cfg) (src : Str) (h : '[' ∉ normText cfg src)
+/-- **wikilinks**, partial: inert on a source without `[[`, when the run without it is not out of fuel.
+    "No `[[`" is not closed under concatenation; the block stage and the inline stage keep it all the same because
+    what they put between two pieces of a text (a line feed; placeholders, escapes, stashed strings) is never empty
+    and contains no `[` (`BlockExt.BSep`, `InlineX.Sep`; `Lemmas/PipelineXInertTreeP*.lean`,
+    `Lemmas/InlineXInvP*.lean`). -/
+theorem C16_noninterference_wikilinks_partial (x : Exts) (cfg : Cfg) (src : Str) (h : lacksN "[[" cfg src)
     (hfuel : convertX { x with wikilinks := false } cfg src ≠ .oof) :
     convertX { x with wikilinks := true } cfg src = convertX { x with wikilinks := false } cfg src :=
-  convertX_wikilinks { x with wikilinks := false } rfl cfg src h hfuel
+  convertX_wikilinks_src { x with wikilinks := false } rfl cfg src h hfuel
 
-example : '[' ∉ normText {} "# T\n\na ]] b".toList := by decide +kernel
-example : convertX {} {} "# T\n\na ]] b".toList ≠ .oof := by decide +kernel
+example : lacksN "[[" {} "# T\n\na [b][c] ]] [d](e) \\[x]\n\n* [ [y]]".toList := by decide +kernel
+example : convertX {} {} "# T\n\na [b][c] ]] [d](e) \\[x]\n\n* [ [y]]".toList ≠ .oof := by decide +kernel
 example : convertX { wikilinks := true } {} "[[a b]]".toList ≠ convertX {} {} "[[a b]]".toList := by decide +kernel
 
-/-- **wikilinks**, partial, with the exact trigger: inert on a source such that no text and no tail of the element
-    tree the inline stage is run on contains `[[` (`wikiTriggerFree`, a decidable predicate of the block stage), when
-    the run without it is not out of fuel.  The invariant "no `[[`" is not closed under concatenation; the inline
-    stage keeps it because what it puts between two pieces of a text (placeholders, escapes, stashed strings) is
-    never empty and contains no `[` (`Lemmas/InlineXInvP*.lean`, `InlineX.sep_noDbl`). -/
+/-- **wikilinks**, partial, on the tree: inert on a source such that no text and no tail of the element tree the
+    inline stage is run on contains `[[` (`wikiTriggerFree`, a decidable predicate of the block stage), when the run
+    without it is not out of fuel. -/
 theorem C16_noninterference_wikilinks_tree_partial (x : Exts) (cfg : Cfg) (src : Str)
     (h : wikiTriggerFree { x with wikilinks := false } cfg src = true)
     (hfuel : convertX { x with wikilinks := false } cfg src ≠ .oof) :
